@@ -206,6 +206,17 @@ def reference(script):
 
 
 def execute(scn, want_log=False):
+    import logging
+
+    plog = logging.getLogger('pytezos')
+    saved = plog.level
+    try:
+        return _execute(scn, want_log)
+    finally:
+        plog.setLevel(saved)  # the log level is a scenario knob: never let it leak into the next scenario of the process
+
+
+def _execute(scn, want_log=False):
     from pytezos.rpc.node import RpcError
     from pytezos.rpc.node import RpcMultiNode
     from pytezos.rpc.node import RpcNode
